@@ -459,7 +459,7 @@ type spec struct {
 	undes     int    // number of undesignated per-call handlers
 	separate  bool   // passed as separate options (true) or as one option (false)
 	global    bool   // one global handler
-	desig     string // "" | "leaves" (one handler per parallel leaf) | "sub" (handler designated to the sub-graph node) | "path" (to an inner node by path)
+	desig     string // "" | "leaves" (one handler per parallel leaf) | "sub" (handler designated to the sub-graph node) | "path" (to an inner node by path) | "paths" (one option designated to three paths on two levels, deep first)
 	raw       bool
 	call      string // invoke | stream
 	streamMod string // drain | close | read1
@@ -848,6 +848,11 @@ func (sp *spec) build() (func(), func(x *vsched.Exec) (string, error)) {
 				opts = append(opts, compose.WithCallbacks(w.handler("Px", sp.raw, sp.streamMod)).DesignateNodeWithPath(compose.NewNodePath("s", "x")))
 				applicable["Px"] = func(u unit) bool { return u.name == "x" }
 				designate("Da", "a", func(u unit) bool { return u.name == "a" })
+			case "paths":
+				// ONE option designated to several paths, the deeper one first, then a top-level node, then a deeper one again
+				opts = append(opts, compose.WithCallbacks(w.handler("Pm", sp.raw, sp.streamMod)).DesignateNodeWithPath(
+					compose.NewNodePath("s", "x"), compose.NewNodePath("a"), compose.NewNodePath("s", "y")))
+				applicable["Pm"] = func(u unit) bool { return u.name == "x" || u.name == "a" || u.name == "y" }
 			}
 			r, err := g.Compile(ctx, compose.WithGraphName("G0"))
 			if err != nil {
@@ -1207,7 +1212,7 @@ func main() {
 	for _, shape := range shapes {
 		desigs := []string{"", "leaves"}
 		if shape == "nested" {
-			desigs = []string{"", "leaves", "sub", "path"}
+			desigs = []string{"", "leaves", "sub", "path", "paths"}
 		}
 		if shape == "nested-keyed" {
 			desigs = []string{"sub", "path"}
